@@ -184,17 +184,12 @@ type GuardSpec struct {
 	MinTargets int
 }
 
-// checkGuard evaluates the spec and records obligations in r.
-func checkGuard(p *Prog, r *Report, gs GuardSpec) {
-	name := fnName(gs.Fn)
-	r.Fn(name)
-	what := fmt.Sprintf("%s is reached only under %s", gs.TargetDesc, gs.GDesc)
-	nt := countInstr(gs.Fn, gs.Target)
+// evalGuard evaluates the spec: ok, or a description and witness of the falsifying assignment.
+func evalGuard(p *Prog, gs GuardSpec) (ok bool, kind, detail, pos string, path []string, nt int) {
+	nt = countInstr(gs.Fn, gs.Target)
 	if nt < gs.MinTargets || nt == 0 {
-		r.Fail(name, gs.Rule+":unresolved-anchor", what, fmt.Sprintf("guarded construct (%s) matched %d instructions, expected >= %d", gs.TargetDesc, nt, max1(gs.MinTargets)), p.Pos(gs.Fn.Pos()), nil)
-		return
+		return false, "unresolved-anchor", fmt.Sprintf("guarded construct (%s) matched %d instructions, expected >= %d", gs.TargetDesc, nt, max1(gs.MinTargets)), p.Pos(gs.Fn.Pos()), nil, nt
 	}
-	r.Site(nt)
 	sites := atomSites(gs.Fn, gs.Atoms)
 	starts := gs.Starts
 	if starts == nil {
@@ -233,10 +228,23 @@ func checkGuard(p *Prog, r *Report, gs GuardSpec) {
 					break
 				}
 			}
-			r.Fail(name, gs.Rule+":guard-too-weak", what, d, pos, p.renderPath(w))
-			return
+			return false, "guard-too-weak", d, pos, p.renderPath(w), nt
 		}
 	}
+	return true, "", "", "", nil, nt
+}
+
+// checkGuard evaluates the spec and records obligations in r.
+func checkGuard(p *Prog, r *Report, gs GuardSpec) {
+	name := fnName(gs.Fn)
+	r.Fn(name)
+	what := fmt.Sprintf("%s is reached only under %s", gs.TargetDesc, gs.GDesc)
+	ok, kind, detail, pos, path, nt := evalGuard(p, gs)
+	if !ok {
+		r.Fail(name, gs.Rule+":"+kind, what, detail, pos, path)
+		return
+	}
+	r.Site(nt)
 	r.OK(name, gs.Rule, what)
 }
 
